@@ -14,7 +14,7 @@ import numpy as np
 import xgi
 from xgi.exception import IDNotFound, XGIError
 
-from .core import dec_id, enc_attrs, enc_attrs_req, enc_id, idkey
+from .core import Infra, dec_id, enc_attrs, enc_attrs_req, enc_id, idkey
 from .fn import gen_hypergraph
 
 CLS = {"hg": xgi.Hypergraph, "dhg": xgi.DiHypergraph, "sc": xgi.SimplicialComplex}
@@ -37,13 +37,21 @@ def sids(it):
 # ----------------------------------------------------------------------------- generators
 
 ATTR_KEYS = ["w", "c", "name", "k"]
+# keys spelled like a parameter of add_node / add_edge / add_nodes_from / add_edges_from / the constructors: a converter
+# that forwards an attribute dict as `**attr` breaks on them
+PARAM_KEYS = ["node", "idx", "members", "attr", "edge", "n", "weight", "name", "nodes_for_adding", "ebunch_to_add",
+              "incoming_data", "self"]
 ATTR_VALS = [0, 1, -2, 7, "r", "blue", "", None, "1"]
+# non-scalar / non-int values (the model carries them as opaque canonical JSON text)
+ODD_VALS = [0.5, -1.25, True, False, [1, 2], [], ["a", [1]], {"k": 1}, {}, {"a b": [1, {"z": None}]}, 2 ** 40]
 
 
 def gen_attrs(rng, p=0.4, maxn=2):
     if rng.random() > p:
         return {}
-    return {k: rng.choice(ATTR_VALS) for k in rng.sample(ATTR_KEYS, rng.randint(1, maxn))}
+    pool = ATTR_KEYS + PARAM_KEYS if rng.random() < 0.5 else ATTR_KEYS
+    return {k: (rng.choice(ODD_VALS) if rng.random() < 0.2 else rng.choice(ATTR_VALS))
+            for k in rng.sample(pool, rng.randint(1, maxn))}
 
 
 def attrs_req(d):
@@ -101,25 +109,34 @@ def dec_attrs(a):
 
 
 def build_net(a):
-    """the real network object presenting exactly the encoded network"""
-    N = CLS[a["cls"]](**dec_attrs(a["gattr"]))
+    """the real network object presenting exactly the encoded network.  Attributes are never passed as `**attr`
+    (a key may be spelled like a parameter): nodes / edges are created bare and the dicts are written with
+    set_node_attributes / set_edge_attributes / `N[key] = value`."""
+    N = CLS[a["cls"]]()
+    for k, v in dec_attrs(a["gattr"]).items():
+        N[k] = v
     nat = {repr(n): dec_attrs(at) for n, at in a["nattr"]}
     eat = {repr(e): dec_attrs(at) for e, at in a["eattr"]}
     for n in a["nodes"]:
-        N.add_node(dec_id(n), **nat.get(repr(n), {}))
+        N.add_node(dec_id(n))
     with warnings.catch_warnings():
         warnings.simplefilter("ignore")
         if a["cls"] == "hg":
             for e, ms in a["edges"]:
-                N.add_edge([dec_id(x) for x in ms], idx=dec_id(e), **eat.get(repr(e), {}))
+                N.add_edge([dec_id(x) for x in ms], idx=dec_id(e))
         elif a["cls"] == "dhg":
             for e, t, h in a["edges"]:
-                N.add_edge(([dec_id(x) for x in t], [dec_id(x) for x in h]), idx=dec_id(e), **eat.get(repr(e), {}))
+                N.add_edge(([dec_id(x) for x in t], [dec_id(x) for x in h]), idx=dec_id(e))
         else:
-            N.add_simplices_from([([dec_id(x) for x in ms], dec_id(e), eat.get(repr(e), {})) for e, ms in a["edges"]])
+            N.add_simplices_from([([dec_id(x) for x in ms], dec_id(e)) for e, ms in a["edges"]])
+        N.set_node_attributes({dec_id(n): nat[repr(n)] for n in a["nodes"] if nat.get(repr(n))})
+        N.set_edge_attributes({dec_id(e[0]): eat[repr(e[0])] for e in a["edges"] if eat.get(repr(e[0]))})
     got = snapshot(N)
-    if [x for x in got["nodes"]] != a["nodes"] or got["edges"] != a["edges"]:
-        raise ValueError(f"generator defect: built network {got} differs from encoded {a}")
+    want_n = [[n, enc_attrs(nat.get(repr(n), {}))] for n in a["nodes"]]
+    want_e = [[e[0], enc_attrs(eat.get(repr(e[0]), {}))] for e in a["edges"]]
+    if (got["nodes"] != a["nodes"] or got["edges"] != a["edges"] or got["nattr"] != want_n or got["eattr"] != want_e
+            or got["gattr"] != enc_attrs(dec_attrs(a["gattr"]))):
+        raise Infra(f"generator defect: built network {got} differs from encoded {a}")
     return N
 
 
@@ -164,7 +181,7 @@ def sort_runs(rows, key):
 
 
 def err_kind(ex):
-    if isinstance(ex, (XGIError, IDNotFound)):
+    if isinstance(ex, XGIError):
         return "err:lib"
     if isinstance(ex, TypeError):
         return "err:type"
@@ -202,10 +219,12 @@ def convert(case):
 def _convert(N, a, f, case):
     r = {"out": "ok"}
     using = CLS[case["using"]] if case.get("using") else None
+    opt = case.get("opt") or {}
     if f == "hyperedge_list":
         L = xgi.to_hyperedge_list(N)
         r["rep"] = [sids(s) for s in L]
-        R = xgi.from_hyperedge_list(L, create_using=using)
+        kw = {"max_order": opt["max_order"]} if "max_order" in opt else {}
+        R = xgi.from_hyperedge_list(L, create_using=using, **kw)
     elif f == "hyperedge_dict":
         D = xgi.to_hyperedge_dict(N)
         r["rep"] = [[enc_id(e), sids(s)] for e, s in D.items()]
@@ -220,46 +239,91 @@ def _convert(N, a, f, case):
         M = I.todense().tolist() if case.get("sparse", True) else np.asarray(I).tolist()
         rows, cols = [rd[i] for i in range(len(rd))], [cd[j] for j in range(len(cd))]
         r["rep"] = {"M": [[int(x) for x in row] for row in M], "rows": [enc_id(x) for x in rows], "cols": [enc_id(x) for x in cols]}
-        if f == "incidence_labelled":
-            R = xgi.from_incidence_matrix(I, nodelabels=rows, edgelabels=cols)
+        if opt.get("index") is False:      # the matrix alone, as a second call would return it
+            I2 = xgi.to_incidence_matrix(N, sparse=case.get("sparse", True))
+            M2 = I2.todense().tolist() if case.get("sparse", True) else np.asarray(I2).tolist()
+            if [[int(x) for x in row] for row in M2] != r["rep"]["M"]:
+                r["index_false"] = "to_incidence_matrix(index=False) differs from the matrix returned with index=True"
+            I = I2
+        if opt.get("labels") == "nodes":
+            R = xgi.from_incidence_matrix(I, nodelabels=rows)
+        elif opt.get("labels") == "edges":
+            R = xgi.from_incidence_matrix(I, edgelabels=np.array(cols, dtype=object) if opt.get("array") else cols)
+        elif f == "incidence_labelled":
+            R = xgi.from_incidence_matrix(I, nodelabels=rows, edgelabels=cols, create_using=using)
         else:
-            R = xgi.from_incidence_matrix(I)
+            R = xgi.from_incidence_matrix(I, create_using=using)
     elif f == "bipartite_graph":
         G, itn, ite = xgi.to_bipartite_graph(N, index=True)
         r["rep"] = graph_rep(G)
         r["rep"]["itn"] = [[enc_id(k), enc_id(v)] for k, v in itn.items()]
         r["rep"]["ite"] = [[enc_id(k), enc_id(v)] for k, v in ite.items()]
-        R = xgi.from_bipartite_graph(G)
+        if opt.get("index") is False:
+            G2 = xgi.to_bipartite_graph(N)
+            if graph_rep(G2) != graph_rep(G):
+                r["index_false"] = "to_bipartite_graph(index=False) differs from the graph returned with index=True"
+            G = G2
+        R = xgi.from_bipartite_graph(G, dual=True) if opt.get("dual") else xgi.from_bipartite_graph(G)
         r["itn"], r["ite"] = {repr(enc_id(k)): enc_id(v) for k, v in itn.items()}, {repr(enc_id(k)): enc_id(v) for k, v in ite.items()}
     elif f == "dataframe":
         df = xgi.to_bipartite_pandas_dataframe(N)
         rows = [[enc_id(x), enc_id(y)] for x, y in df.values.tolist()]
         r["rep"] = sort_runs(rows, key=lambda t: t[0])
-        R = xgi.from_bipartite_pandas_dataframe(df, create_using=using)
+        cols = opt.get("columns")
+        if cols == "names":
+            R = xgi.from_bipartite_pandas_dataframe(df, create_using=using, node_column="Node ID", edge_column="Edge ID")
+        elif cols == "reordered":      # the edge column first (+ an unrelated third column): found by name
+            df2 = df[["Edge ID", "Node ID"]].copy()
+            df2.insert(1, "extra", list(range(len(df2))))
+            R = xgi.from_bipartite_pandas_dataframe(df2, create_using=using, node_column="Node ID", edge_column="Edge ID")
+        elif cols == "renamed":
+            df2 = df.rename(columns={"Node ID": "n", "Edge ID": "e"})
+            R = xgi.from_bipartite_pandas_dataframe(df2, create_using=using, node_column="n", edge_column="e")
+        elif cols == "positions-swapped":   # columns given by position, edge column first
+            df2 = df[["Edge ID", "Node ID"]]
+            R = xgi.from_bipartite_pandas_dataframe(df2, create_using=using, node_column=1, edge_column=0)
+        elif cols == "dual":            # the roles exchanged on purpose: the dual incidences
+            R = xgi.from_bipartite_pandas_dataframe(df, create_using=using, node_column=1, edge_column=0)
+        else:
+            R = xgi.from_bipartite_pandas_dataframe(df, create_using=using)
     elif f == "hypergraph_dict":
         d = xgi.to_hypergraph_dict(N)
-        r["rep"] = {"gattr": enc_attrs(d["hypergraph-data"]),
-                    "node-data": [[k, enc_attrs(v)] for k, v in d["node-data"].items()],
-                    "edge-data": [[k, enc_attrs(v)] for k, v in d["edge-data"].items()],
-                    "edge-dict": [[k, list(v)] for k, v in d["edge-dict"].items()]}
-        cast = {"int": int, "none": None, "mixed": None}
-        R = xgi.from_hypergraph_dict(d, nodetype=cast[case["nodetype"]], edgetype=cast[case["edgetype"]])
+        r["rep"] = hdict_rep(d)
+        cast = {"int": int, "none": None, "mixed": None, "str": str}
+        kw = {"max_order": opt["max_order"]} if "max_order" in opt else {}
+        R = xgi.from_hypergraph_dict(d, nodetype=cast[case["nodetype"]], edgetype=cast[case["edgetype"]], **kw)
     elif f == "hif_dict":
         d = xgi.to_hif_dict(N)
-        nt = d["network-type"]
-        incs = [[enc_id(x["edge"]), enc_id(x["node"])] + ([x["direction"]] if "direction" in x else []) for x in d["incidences"]]
-        r["rep"] = {"ntype": nt, "gattr": enc_attrs(d["metadata"]),
-                    "nodes": sorted([[enc_id(x["node"]), enc_attrs(x["attrs"]) if "attrs" in x else "$none"] for x in d.get("nodes", [])], key=lambda p: idkey(p[0])),
-                    "edges": sorted([[enc_id(x["edge"]), enc_attrs(x["attrs"]) if "attrs" in x else "$none"] for x in d.get("edges", [])], key=lambda p: idkey(p[0])),
-                    "incidences": sort_runs(incs, key=lambda t: [t[0]] + t[2:])}
-        R = xgi.from_hif_dict(d)
+        r["rep"] = hif_rep(d)
+        cast = {"int": int, "str": str, None: None}
+        if "cast" in opt:
+            R = xgi.from_hif_dict(d, nodetype=cast[opt["cast"][0]], edgetype=cast[opt["cast"][1]])
+        else:
+            R = xgi.from_hif_dict(d)
     elif f == "class":
         r["rep"] = None
         R = CLS[case["target"]](N)
     else:
-        raise ValueError(f)
+        raise Infra(f"unknown converter {f}")
     r["rt"] = snapshot(R)
     return r
+
+
+def hdict_rep(d):
+    """canonical form of a standard hypergraph dict (in memory, or as json.loads returned it from a file)"""
+    return {"gattr": enc_attrs(d["hypergraph-data"]),
+            "node-data": [[k, enc_attrs(v)] for k, v in d["node-data"].items()],
+            "edge-data": [[k, enc_attrs(v)] for k, v in d["edge-data"].items()],
+            "edge-dict": [[k, list(v)] for k, v in d["edge-dict"].items()]}
+
+
+def hif_rep(d):
+    """canonical form of a HIF dict (in memory, or as json.loads returned it from a file)"""
+    incs = [[enc_id(x["edge"]), enc_id(x["node"])] + ([x["direction"]] if "direction" in x else []) for x in d["incidences"]]
+    return {"ntype": d["network-type"], "gattr": enc_attrs(d["metadata"]),
+            "nodes": sorted([[enc_id(x["node"]), enc_attrs(x["attrs"]) if "attrs" in x else "$none"] for x in d.get("nodes", [])], key=lambda p: idkey(p[0])),
+            "edges": sorted([[enc_id(x["edge"]), enc_attrs(x["attrs"]) if "attrs" in x else "$none"] for x in d.get("edges", [])], key=lambda p: idkey(p[0])),
+            "incidences": sort_runs(incs, key=lambda t: [t[0]] + t[2:])}
 
 
 def graph_rep(G):
@@ -305,19 +369,54 @@ def kept_for_sc(edges):
     return out
 
 
+KWARG_CLASH = "attribute-key-named-like-a-parameter"
+
+
+def flat_net(a):
+    """the undirected network underlying a directed one: every edge becomes tail | head (DiEdgeView.members)"""
+    return dict(a, cls="hg", edges=[[e[0], members_of(e)] for e in a["edges"]])
+
+
+def classify_directed(case, r):
+    """a DiHypergraph given to a converter documented for Hypergraph / SimplicialComplex only:
+    'raises-<Type>' | 'undirected-shadow' (the round trip of the underlying undirected network, direction silently
+    dropped) | 'garbage' (accepted, and the result is not even that)"""
+    if str(r.get("out", "")).startswith("err"):
+        return "raises-" + (r.get("msg", r["out"]).split(":")[0])
+    c2 = dict(case, net=flat_net(case["net"]))
+    c2.pop("directed_undocumented", None)
+    return "undirected-shadow" if not pred(c2, r) else "garbage"
+
+
 def pred(case, r):
     """C10 on the implementation's result: list of (failure_class, detail)"""
     if case.get("f") == "from_bipartite_graph":
         return pred_graph(case, r)
     a, f = case["net"], case["f"]
+    opt = case.get("opt") or {}
     fails = []
+    if case.get("directed_undocumented"):
+        k = classify_directed(case, r)
+        if k == "garbage":
+            fails.append(("directed-input-garbage", f"{f} accepted a DiHypergraph without error and the round trip is not even the "
+                          f"underlying undirected network (tail | head per edge): edges {r['rt']['edges']} nodes {r['rt']['nodes']}"))
+        return fails
     if str(r.get("out", "")).startswith("err"):
         exp = expected_error(case)
         if exp is None:
             name = r["out"].split(":")[-1] if r["out"].startswith("err:other") else \
                 {"err:lib": "XGIError", "err:type": "TypeError", "err:value": "ValueError"}[r["out"]]
-            fails.append(("raises-" + name, f"{f} on a {a['cls']} network raised {r.get('msg', r['out'])}"))
+            if r["out"] == "err:type" and "got multiple values for argument" in r.get("msg", ""):
+                fails.append((KWARG_CLASH, f"{f} on a {a['cls']} network raised {r.get('msg')}: an attribute dict was forwarded as **kwargs"))
+            else:
+                fails.append(("raises-" + name, f"{f} on a {a['cls']} network raised {r.get('msg', r['out'])}"))
         return fails
+    if f == "hypergraph_dict" and opt.get("max_order"):
+        # documented option: edges with more than max_order + 1 members are not read (their attribute records neither)
+        keep = [i for i, e in enumerate(a["edges"]) if len(members_of(e)) <= opt["max_order"] + 1]
+        a = dict(a, edges=[a["edges"][i] for i in keep], eattr=[a["eattr"][i] for i in keep])
+    if r.get("index_false"):
+        fails.append(("index-false-differs", r["index_false"]))
     s, t = a, r["rt"]
     src_inc = inc_of(s)
     und_inc = {(repr(n), repr(e[0])) for e in s["edges"] for n in members_of(e)}
@@ -330,13 +429,30 @@ def pred(case, r):
     elif f == "hyperedge_dict":
         if sorted(t["edges"], key=lambda e: idkey(e[0])) != sorted(([e[0], members_of(e)] for e in s["edges"]), key=lambda e: idkey(e[0])):
             fails.append(("incidence", f"edge dict {t['edges']} vs source {s['edges']}"))
-    elif f in ("bipartite_edgelist", "incidence_labelled", "dataframe"):
+    elif f == "dataframe" and opt.get("columns") == "dual":
+        want = {(e, n) for n, e in src_inc}
+        if inc_of(t) != want:
+            fails.append(("incidence", f"node_column=1, edge_column=0: incidences {sorted(inc_of(t))} vs exchanged source {sorted(want)}"))
+    elif f in ("bipartite_edgelist", "dataframe") or (f == "incidence_labelled" and not opt.get("labels")):
         if inc_of(t) != src_inc:
             fails.append(("incidence", f"incidences {sorted(inc_of(t))} vs source {sorted(src_inc)}"))
-    elif f == "incidence_unlabelled":
-        pos = {(repr(i), repr(j)) for j, e in enumerate(s["edges"]) for i, n in enumerate(s["nodes"]) if n in e[1]}
+    elif f in ("incidence_unlabelled", "incidence_labelled"):
+        # labels carried for the side whose label list is given, positions for the other
+        ln, le = opt.get("labels") == "nodes", opt.get("labels") == "edges"
+        pos = {(repr(n if ln else i), repr(e[0] if le else j)) for j, e in enumerate(s["edges"]) for i, n in enumerate(s["nodes"]) if n in e[1]}
         if inc_of(t) != pos:
-            fails.append(("incidence", f"positional incidences {sorted(inc_of(t))} vs source {sorted(pos)}"))
+            fails.append(("incidence", f"incidences {sorted(inc_of(t))} vs source (labels: {opt.get('labels', 'none')}) {sorted(pos)}"))
+    elif f == "bipartite_graph" and opt.get("dual"):
+        # dual=True: nodes from the bipartite=1 vertices (the source's edges), edges from the bipartite=0 vertices
+        itn, ite = r["itn"], r["ite"]
+        try:
+            got = {(repr(ite[repr(n)]), repr(itn[repr(e[0])])) for e in t["edges"] for n in e[1]}
+        except KeyError as ex:
+            fails.append(("dual", f"dual=True: vertex {ex} used with the wrong role (index maps {itn} / {ite})"))
+        else:
+            want = {(e, n) for n, e in src_inc}
+            if got != want:
+                fails.append(("dual", f"dual=True: incidences through the index maps {sorted(got)} vs exchanged source {sorted(want)}"))
     elif f == "bipartite_graph":
         itn, ite = r["itn"], r["ite"]
         try:
@@ -353,8 +469,14 @@ def pred(case, r):
             if got != src_inc:
                 fails.append(("incidence", f"incidences through the index maps {sorted(got)} vs source {sorted(src_inc)}"))
     elif f in ("hypergraph_dict", "hif_dict"):
-        cn = (lambda x: x) if (f == "hif_dict" or case["nodetype"] != "mixed") else str
-        ce = (lambda x: x) if (f == "hif_dict" or case["edgetype"] != "mixed") else str
+        # the documented effect of nodetype / edgetype on the IDs: the hypergraph dict stringifies every ID and reads it
+        # back through the cast (no cast: it stays a string); HIF keeps the JSON value unless a cast is given
+        ident = lambda x: x
+        if f == "hif_dict":
+            cn, ce = [{"int": int, "str": str, None: ident}[k] for k in opt.get("cast", [None, None])]
+        else:
+            cn = int if case["nodetype"] == "int" else str
+            ce = int if case["edgetype"] == "int" else str
         want_inc = {(repr(cn(n)), repr(ce(e[0]))) + ((d,) if s["cls"] == "dhg" else ()) for e in s["edges"]
                     for d, part in (("in", e[1]), ("out", e[2] if len(e) > 2 else [])) for n in part}
         if f == "hypergraph_dict" and s["cls"] == "dhg":
@@ -468,14 +590,69 @@ def pred_graph(case, r):
 
 # ----------------------------------------------------------------------------- case generation
 
-def cases_for(rng, a):
-    """all converter-pair cases for one encoded network"""
+UNDIRECTED_ONLY_DOC = {
+    # converter -> the docstring line that names its input (quoted in ctx.assumptions)
+    "hyperedge_list": "to_hyperedge_list: 'H : Hypergraph object / The hypergraph of interest'",
+    "hyperedge_dict": "to_hyperedge_dict: 'H : Hypergraph object / The hypergraph of interest'",
+    "incidence_labelled": "to_incidence_matrix: 'H : Hypergraph object / The hypergraph of interest'",
+    "incidence_unlabelled": "to_incidence_matrix: 'H : Hypergraph object / The hypergraph of interest'",
+    "dataframe": "to_bipartite_pandas_dataframe: 'H : Hypergraph or Simplicial Complex'",
+    "hypergraph_dict": "to_hypergraph_dict: 'H : Hypergraph / The hypergraph to convert'",
+}
+
+
+def relabel(a, fn, fe):
+    """the same network under other node / edge IDs"""
+    b = dict(a)
+    b["nodes"] = [fn(n) for n in a["nodes"]]
+    b["edges"] = [[fe(e[0])] + [sorted((fn(x) for x in part), key=idkey) for part in e[1:]] for e in a["edges"]]
+    b["nattr"] = [[fn(n), at] for n, at in a["nattr"]]
+    b["eattr"] = [[fe(e), at] for e, at in a["eattr"]]
+    return b
+
+
+def option_cases(rng, a):
+    """the option axis: every non-default way of calling a converter pair the statement still speaks about"""
+    out = []
+    directed = a["cls"] == "dhg"
+    ns, es = [dec_id(n) for n in a["nodes"]], [dec_id(e[0]) for e in a["edges"]]
+    all_int = all(isinstance(x, int) for x in ns + es)
+    if not directed:
+        out.append({"f": "hyperedge_list", "net": a, "opt": {"max_order": rng.choice([0, 1, 2])}})
+        for lab in ("nodes", "edges"):
+            out.append({"f": "incidence_labelled", "net": a, "sparse": rng.random() < 0.5, "opt": {"labels": lab, "array": rng.random() < 0.5}})
+        out.append({"f": "incidence_unlabelled", "net": a, "sparse": rng.random() < 0.5, "opt": {"index": False}})
+        out.append({"f": "bipartite_graph", "net": a, "opt": {"dual": True}})
+        for cols in ("names", "reordered", "renamed", "positions-swapped", "dual"):
+            out.append({"f": "dataframe", "net": a, "opt": {"columns": cols}})
+        out.append({"f": "dataframe", "net": a, "using": "hg"})
+        out.append({"f": "incidence_labelled", "net": a, "sparse": True, "using": "hg"})
+        for k in (1, 2, 9):
+            out.append({"f": "hypergraph_dict", "net": a, "opt": {"max_order": k},
+                        "nodetype": nodetype_for(ns), "edgetype": nodetype_for(es)})
+    out.append({"f": "bipartite_graph", "net": a, "opt": {"index": False}})
+    if all_int:
+        # real casts: digit-string IDs read back with int (-> the int IDs), int IDs read back without a cast / with str
+        b = relabel(a, str, str)
+        out.append({"f": "hif_dict", "net": b, "opt": {"cast": ["int", "int"]}})
+        out.append({"f": "hif_dict", "net": b, "opt": {"cast": ["int", None]}})
+        out.append({"f": "hif_dict", "net": a, "opt": {"cast": ["str", "str"]}})
+        out.append({"f": "hif_dict", "net": a, "opt": {"cast": [None, "str"]}})
+        if not directed:
+            out.append({"f": "hypergraph_dict", "net": b, "nodetype": "int", "edgetype": "int"})
+            out.append({"f": "hypergraph_dict", "net": b, "nodetype": "int", "edgetype": "none"})
+            out.append({"f": "hypergraph_dict", "net": a, "nodetype": "none", "edgetype": "int"})
+    return out
+
+
+def cases_for(rng, a, options=None):
+    """all converter-pair cases for one encoded network (+ `options` randomly chosen option cases; None = all)"""
     out = []
     directed = a["cls"] == "dhg"
     for f in CONVERTERS:
-        if directed and f not in DIRECTED_OK:
-            continue
         c = {"f": f, "net": a}
+        if directed and f not in DIRECTED_OK:
+            c["directed_undocumented"] = True
         if f.startswith("incidence"):
             c["sparse"] = rng.random() < 0.5
         if f == "hypergraph_dict":
@@ -488,6 +665,8 @@ def cases_for(rng, a):
         out.append(c)
         if a["cls"] == "sc" and f in ("hyperedge_list", "hyperedge_dict"):
             out.append(dict(c, using="sc"))
+    oc = option_cases(rng, a)
+    out += oc if options is None else rng.sample(oc, min(options, len(oc)))
     return out
 
 
